@@ -240,6 +240,10 @@ CONTRACTS.append(guard_set(Contract(
     requires=lambda c: [('wf1', J.wf(c.cache_filename)), ('wf2', J.wf(c.build_name))],
     ensures=lambda c: [
         ('no-callback', c.gnew('ncalls') == c.gold('ncalls')),
+        # C15: "the cache path being a directory" is a refusal, not "nothing to clean"
+        ('a-directory-at-the-cache-path-is-refused', Implies(
+            J.is_str(J.base_of(c.cache_filename)),
+            c.gold('fs_kind')[abspath(PyV.ps(J.base_of(c.cache_filename)))] != K_DIR), ['C15']),
     ],
     # any exception = refusal: nothing was touched
     raises=[ExcSpec('Exception', ensures=no_effect, modifies=NOTHING)],
@@ -599,7 +603,7 @@ def query_exit(eng, st, ctrl, v):
                          None)
         want = {'is_file': EXC_.vfile, 'is_dir': EXC_.vdir, 'exists': EXC_.vexists}[name](
             view, abspath(PyV.ps(f0)), None)
-        res = v.t if isinstance(v, Sym) else v
+        res = eng.intr.to_pyv(v)       # also a literal True/False returned by the body
         out.append(('answers-the-virtual-view-at-the-sanitized-path', Implies(
             J.is_str(f0), res == PyV.PBool(want)), ['C04', 'C05', 'C01']))
     return out
@@ -746,6 +750,12 @@ SUBBUILD_INNER = Contract(
                     ensures=no_effect, modifies=NOTHING, props=['C08']),
             ExcSpec('Exception', when=lambda c: Not(subbuild_taken(c)), guarded=True,
                     ensures=lambda c: append_only(c, True) + [
+                        # C17: the builder is closed (under its lock) once its function has
+                        # raised, like _rebuild_file does for a build_file builder (a failed
+                        # set-up is closed by the public wrapper: no function ever held it)
+                        ('closed-once-the-function-raised', Implies(
+                            c.gnew('ncalls') > c.gold('ncalls'),
+                            c.new('Operation.is_finished', cur_op(c))), ['C17']),
                         ('raised-iff-function-called',
                          c.new('ComplexOperation.raised', cur_op(c))
                          == (c.gnew('ncalls') > c.gold('ncalls')), ['C08', 'C10', 'C05', 'C01']),
@@ -990,6 +1000,25 @@ def vok_children(c, op, st='old'):
                                  VOK(s[qi_])))
 
 
+def replay_marks_grow(c, base='gold'):
+    g0 = getattr(c, base)('replayed')
+    return ForAll([qr_], Implies(g0[qr_], c.gnew('replayed')[qr_]))
+
+
+def children_replayed(c, op):
+    """coverage of a replay: every recorded suboperation of `op` was handed to its replay function
+    (which re-executes a query / checks an output and its versions, and says False if it differs)"""
+    s = c.old(SUBOPS, op)
+    return ForAll([qi_], Implies(And(0 <= qi_, qi_ < z3.Length(s)), c.gnew('replayed')[s[qi_]]))
+
+
+COVER = ['C13', 'C01', 'C05', 'C04', 'C06']
+
+
+def mark_replayed(c):
+    return {'replayed': z3.Store(c.gnew('replayed'), c.operation, True)}
+
+
 def vok_def(c, op):
     """definition of VOK at `op` (instance of the fixpoint equation)"""
     return VOK(op) == And(versions_equal(c, c.old(FN, op)), vok_children(c, op))
@@ -1083,7 +1112,7 @@ def versions_wf(c):
 
 
 ARE_SUBOPS = Contract(
-    M + '_are_suboperations_cached', props=['C06', 'C01', 'C05'],
+    M + '_are_suboperations_cached', props=['C06', 'C01', 'C05', 'C13', 'C04'],
     params={'self': FB, 'operation': OPREC, 'created_files': CFO}, returns=BOOL,
     requires=lambda c: replay_common_req(c) + cf_inv(c, 'old', c.created_files) + [
         ('record-wf', RWF(c.operation)), ('is-complex', is_complex(c.operation))],
@@ -1091,12 +1120,20 @@ ARE_SUBOPS = Contract(
         ('overlay-counts-never-drop', cf_counts_grow(c, c.created_files)),
         ('true-only-if-versions-unchanged-below', Implies(c.res, vok_children(c, c.operation)),
          ['C06']),
+        # C13/C01 ("nested in a reused subtree"): True only after EVERY recorded suboperation
+        # was replayed -- none skipped, the walk not cut short
+        ('true-only-if-every-recorded-suboperation-was-replayed', Implies(
+            c.res, children_replayed(c, c.operation)), COVER),
+        ('replay-marks-only-grow', replay_marks_grow(c)),
     ],
     raises=[ExcSpec('RuntimeError', ensures=replay_frame), ExcSpec('OSError', ensures=replay_frame),
             ExcSpec('ValueError', ensures=replay_frame)],
-    modifies=REPLAY_MODS,
-    loops={0: LoopSpec(modifies=REPLAY_MODS,
+    modifies=lambda c: REPLAY_MODS(c) + ['g:replayed'],
+    loops={0: LoopSpec(modifies=lambda c: REPLAY_MODS(c) + ['g:replayed'],
                        inv=lambda c: cf_inv(c, 'new', c.created_files) + no_effect_loop(c) + [
+        ('replay-marks-only-grow', replay_marks_grow(c, 'gentry')),
+        ('visited-were-replayed', ForAll([qi_], Implies(
+            And(0 <= qi_, qi_ < c.loop['i']), c.gnew('replayed')[c.loop['seq'][qi_]])), COVER),
         ('overlay-counts-never-drop', ForAll([CF.d], CF.cnt(c.new(CF.N_, c.created_files), CF.d)
                                              >= CF.cnt(c.entry(CF.N_, c.created_files), CF.d))),
         ('versions-ok-so-far', ForAll([qi_], Implies(
@@ -1174,7 +1211,7 @@ def bfop_target_exists(c):
 
 
 IS_BFOP = Contract(
-    M + '_is_build_file_operation_cached', props=['C06', 'C01', 'C05', 'C08'],
+    M + '_is_build_file_operation_cached', props=['C06', 'C01', 'C05', 'C08', 'C13', 'C04'],
     params={'self': FB, 'operation': OBJ('BuildFileOperation'), 'created_files': CFO}, returns=BOOL,
     requires=lambda c: replay_common_req(c) + cf_inv(c, 'old', c.created_files)
     + [('record-wf', RWF(c.operation))],
@@ -1192,10 +1229,13 @@ IS_BFOP = Contract(
         ('a-replayed-failure-finds-nothing-at-its-target', Implies(
             And(c.res, c.old(RAISED, c.operation)),
             Not(bfop_target_exists(c))), ['C01', 'C04', 'C10']),
+        ('true-only-if-every-recorded-suboperation-was-replayed', Implies(
+            c.res, children_replayed(c, c.operation)), COVER),
+        ('replay-marks-only-grow', replay_marks_grow(c)),
     ],
     raises=[ExcSpec('RuntimeError', ensures=replay_frame), ExcSpec('OSError', ensures=replay_frame),
             ExcSpec('ValueError', ensures=replay_frame)],
-    modifies=REPLAY_MODS,
+    modifies=lambda c: REPLAY_MODS(c) + ['g:replayed'],
     lemmas=['PATHS', 'ANC', 'lookup_sanitized', 'sanitized_eqdom'],
 )
 
@@ -1213,10 +1253,12 @@ def bfop_dirs_guard(eng, st, cargs):
 
 
 IS_BFOP.call_guards = {'file_builder.FileBuilder._dirs_to_make': bfop_dirs_guard}
+IS_BFOP.ghost_updates = mark_replayed
+IS_BFOP.ghost_updates_on = 'ret'
 CONTRACTS.append(IS_BFOP)
 
 IS_SUBOP = Contract(
-    M + '_is_subbuild_operation_cached', props=['C06', 'C01', 'C05', 'C08'],
+    M + '_is_subbuild_operation_cached', props=['C06', 'C01', 'C05', 'C08', 'C13', 'C04'],
     params={'self': FB, 'operation': OBJ('SubbuildOperation'), 'created_files': CFO}, returns=BOOL,
     requires=lambda c: replay_common_req(c) + cf_inv(c, 'old', c.created_files)
     + [('record-wf', RWF(c.operation))],
@@ -1225,12 +1267,17 @@ IS_SUBOP = Contract(
         ('true-only-if-versions-unchanged', Implies(c.res, VOK(c.operation)), ['C06']),
         ('true-only-if-not-setup-failed', Implies(c.res, Not(c.old(SETUPF, c.operation))),
          ['C08', 'C01']),
+        ('true-only-if-every-recorded-suboperation-was-replayed', Implies(
+            c.res, children_replayed(c, c.operation)), COVER),
+        ('replay-marks-only-grow', replay_marks_grow(c)),
     ],
     raises=[ExcSpec('RuntimeError', ensures=replay_frame), ExcSpec('OSError', ensures=replay_frame),
             ExcSpec('ValueError', ensures=replay_frame)],
-    modifies=REPLAY_MODS,
+    modifies=lambda c: REPLAY_MODS(c) + ['g:replayed'],
     lemmas=['PATHS', 'ANC', 'lookup_sanitized', 'sanitized_eqdom'],
 )
+IS_SUBOP.ghost_updates = mark_replayed
+IS_SUBOP.ghost_updates_on = 'ret'
 CONTRACTS.append(IS_SUBOP)
 
 IS_SIMPLE = Contract(
@@ -1263,6 +1310,8 @@ def is_simple_exit(eng, st, ctrl, v):
 
 
 IS_SIMPLE.exit_obligations = is_simple_exit
+IS_SIMPLE.ghost_updates = mark_replayed
+IS_SIMPLE.ghost_updates_on = 'ret'
 CONTRACTS.append(IS_SIMPLE)
 
 
@@ -1627,6 +1676,10 @@ _lp2 = LoopSpec(inv=lambda c: [
                                                  c.gnew('rm_attempts')[xs_]))),
 ])
 MAKE_DIRS.inlined_loops = {'file_builder.FileBuilder._remove_empty_dirs': {0: _lp2}}
+# scratch ghosts: which directory the last completed _make_dirs call was for and what it returned
+# (read by the postcondition of _prepare_file_creation)
+MAKE_DIRS.ghost_updates = lambda c: {'md_dir': c.dir_, 'md_res': c.res}
+MAKE_DIRS.ghost_updates_on = 'ret'
 CONTRACTS.append(MAKE_DIRS)
 
 
@@ -1690,12 +1743,20 @@ MAKE_ROOM = call_guard_set(guard_set(Contract(
 CONTRACTS.append(MAKE_ROOM)
 
 PREPARE = Contract(
-    M + '_prepare_file_creation', props=['C03', 'C10', 'C14'],
+    M + '_prepare_file_creation', props=['C03', 'C10', 'C14', 'C12', 'C04'],
     params={'self': FB}, returns=LIST(STR),
     requires=lambda c: wf_builder(c) + executor_coherent(c) + [
         ('is-build-file', And(OPT_OP.is_some(op_of(c)),
                               cls_of(cur_op(c)) == CLS['BuildFileOperation']))],
-    ensures=lambda c: [('no-callback', c.gnew('ncalls') == c.gold('ncalls'))] + eff_grows(c),
+    ensures=lambda c: [
+        ('no-callback', c.gnew('ncalls') == c.gold('ncalls')),
+        # C12/C10 ("directories that build created" are registered, so that clean and the
+        # virtual view know them): whatever was moved out of the way first, the list handed to
+        # BuildDirs is the one _make_dirs produced for the parent directory of the target
+        ('returns-what-make-dirs-made-for-the-parent-of-the-target', And(
+            c.gnew('md_dir') == dirname(c.old('BuildFileOperation.filename', cur_op(c))),
+            c.res == c.gnew('md_res')), ['C12', 'C10', 'C04']),
+    ] + eff_grows(c),
     raises=[ExcSpec('OSError', ensures=lambda c: [
         ('no-callback', c.gnew('ncalls') == c.gold('ncalls'))] + eff_grows(c))],
     modifies=ROOM_MODS,
@@ -1731,7 +1792,8 @@ TRY_REUSE = Contract(
             c.res, Not(J.is_none(c.new('BuildFileOperation.file_comparison_result', cur_op(c))))),
          ['C13']),
         ('not-reused-means-nothing-happened', Implies(Not(c.res), And(
-            c.gnew('eff') == c.gold('eff'), c.gnew('fs_kind') == c.gold('fs_kind'))), ['C01']),
+            c.gnew('eff') == c.gold('eff'), c.gnew('fs_kind') == c.gold('fs_kind'))),
+         ['C01', 'C14']),     # C14: a failed attempt to reuse must surface, not turn into False
         ('own-failure-flags-untouched', And(
             c.new(RAISED, cur_op(c)) == c.old(RAISED, cur_op(c)),
             c.new(SETUPF, cur_op(c)) == c.old(SETUPF, cur_op(c)),
@@ -1776,8 +1838,16 @@ def build_file_backup_guard(eng, st, cargs):
     p = cargs['filename'].t
     me = env_t(st, 'self')
     op = OPT_OP.val(eng.hread(st, 'FileBuilder._operation', me))
+    nc = eng.hread(st, 'FileBuilder._new_cache', me)
     return [('moves-only-its-own-target', p == eng.hread(st, 'BuildFileOperation.filename', op),
-             ['C03', 'C02'])]
+             ['C03', 'C02']),
+            # C08 ("from another thread ... without disturbing the output of the first call"):
+            # the early duplicate check is not under the lock, the claim is (rely clause of
+            # Cache.start_building_file) -- so what stands at the target may be moved aside only
+            # once this call holds the claim; otherwise a duplicate that loses the race has
+            # already moved the winner's output away when it is refused
+            ('target-claimed-before-it-is-moved-aside',
+             CA.OO.is_some(eng.hread(st, 'Cache._norm_cased_files', nc)[p]), ['C08'])]
 
 
 REFUSED = lambda c: Or(already_taken(c), is_the_cache_file(c))
@@ -2038,7 +2108,7 @@ APPLY_MODS = ['BuildDirs._build_dir_counts', 'BuildDirs._created_dirs_map',
               'FileBackups._next_backup_index', 'SimpleOperationExecutor._hash_cache',
               'g:eff', 'g:fs_kind', 'g:fs_epoch', 'g:rm_attempts', 'g:vstate', 'g:bd_res']
 APPLY = Contract(
-    M + '_apply_cached_suboperations', props=['C01', 'C14', 'C03', 'C02', 'C12', 'C04', 'C05'],
+    M + '_apply_cached_suboperations', props=['C01', 'C14', 'C03', 'C02', 'C12', 'C04', 'C05', 'C06'],
     params={'self': FB, 'operation': OBJ('ComplexOperation')},
     requires=lambda c: record_axioms(c) + nbf_axioms(c) + [
         ('record-wf', RWF(c.operation)), ('is-complex', is_complex(c.operation))],
